@@ -377,6 +377,8 @@ class _SimOp:
         self.started = []  # arrival ids in subscription order
         self.outer_done = False
         self.oh = None
+        self.raise_at = None  # the projection raises for the outer element with this arrival index
+        self.raised_while_busy = False
 
     def start(self):
         def mk(h):
@@ -430,6 +432,13 @@ class SimMerge(_SimOp):
 
     def on_outer(self, k, p):
         if self.done:
+            return
+        if k == "N" and self.raise_at is not None and len(self.arrivals) == self.raise_at:
+            # the projection is applied when the outer element arrives (map, then merge): its exception is the
+            # first error and terminates the output at this instant
+            self.raised_while_busy = self.active > 0 if self.maxc is None else self.active >= self.maxc
+            self.raised_any_active = self.active > 0
+            self.terminate("E", f"inj:mapper:{self.raise_at}", "outer")
             return
         if k == "N":
             a = self.arrive(p)
@@ -524,7 +533,7 @@ class SimSwitch(_SimOp):
         self.start_inner(a, cb)
 
 
-def simulate(case_outer, case_inners, resolve, t0, policy, mode, maxc=None):
+def simulate(case_outer, case_inners, resolve, t0, policy, mode, maxc=None, raise_at=None):
     """Run the reference.  mode: "merge" | "switch".  Sources are created in the same order as on the real side
     (inners, then outer), then the subscribe action is queued for t0."""
     sim = Sim(policy)
@@ -534,6 +543,7 @@ def simulate(case_outer, case_inners, resolve, t0, policy, mode, maxc=None):
         op = SimMerge(sim, outer, inners, resolve, maxc)
     else:
         op = SimSwitch(sim, outer, inners, resolve)
+    op.raise_at = raise_at
     sim.at(t0, op.start, "harness")
     sim.run()
     return op
